@@ -1,58 +1,71 @@
 (* C13 — Distinct types, variants and named structs are nominal.
-   Model: Model/TyRel.v ([fit] = can_fit_into, [cast] = can_cast_to); the classifier of
-   targets [ntarget] is in Spec/TyLaws.v.  All theorems quantify over ALL types. *)
+   Model: Model/TyRel.v ([fit] = can_fit_into, [cast] = can_cast_to), parametrised by [fixes]
+   ([no_fixes] = pinned commit); the classifier of targets [ntarget] is in Spec/TyLaws.v.
+   All theorems quantify over ALL types and every combination of fixes. *)
 From Capy Require Import Common.Util Common.Ty Model.TyRel Model.ExpectMatch Spec.TyLaws.
 From Capy Require Import Proofs.TyRelBasics Proofs.TyRelNominal Proofs.TyRelWitness.
 
 (* full statement: a nominal value is only accepted at the same nominal type, any/unknown,
    its own enum, sums of those, or (named struct) an anonymous struct type of the same shape *)
-Definition C13_full : Prop :=
-  forall a e, WfTy a -> WfTy e -> is_nominal a = true -> fit a e = true -> strictly_nominal a e = true.
-Theorem C13_full_refuted : ~ C13_full.
+Definition C13_full (fx : fixes) : Prop :=
+  forall a e, is_nominal a = true -> fit fx a e = true -> strictly_nominal fx a e = true.
+(* false for every variant: C13-1 (`s : S` into `distinct S`) is not touched by the fixes *)
+Theorem C13_full_refuted : forall fx, ~ C13_full fx.
 Proof. exact nominal_full_refuted_wrapper. Qed.
 Print Assumptions C13_full_refuted.
 
-(* second, independent class of exceptions: named struct -> variant with a same-shape payload *)
-Definition C13_no_payload_crossing : Prop :=
-  forall a e, WfTy a -> WfTy e -> is_nominal a = true -> fit a e = true ->
-              match ntarget a e with NT_payload => false | _ => true end = true.
-Theorem C13_no_payload_crossing_refuted : ~ C13_no_payload_crossing.
+(* second class of exceptions: named struct -> variant with a same-shape payload *)
+Definition C13_no_payload_crossing (fx : fixes) : Prop :=
+  forall a e, is_nominal a = true -> fit fx a e = true ->
+              match ntarget fx a e with NT_payload => false | _ => true end = true.
+(* history: false of the pinned code (finding C13-2) *)
+Theorem C13_no_payload_crossing_refuted : ~ C13_no_payload_crossing no_fixes.
 Proof. exact nominal_full_refuted_payload. Qed.
 Print Assumptions C13_no_payload_crossing_refuted.
 
-(* strongest true statement: outside the two known classes (NT_wrapper, NT_payload) a nominal
-   value never reaches a different nominal type, nor its own underlying type *)
-Theorem C13_except_known : forall e a,
-  is_nominal a = true -> fit a e = true -> ntarget a e <> NT_cross.
+(* with the C13-2 fix the payload class is empty, for all types *)
+Theorem C13_no_payload_crossing_fixed :
+  forall fx, fx_feq_uid fx = true -> forall e a, ntarget fx a e <> NT_payload.
+Proof. exact ntarget_no_payload_fixed. Qed.
+Print Assumptions C13_no_payload_crossing_fixed.
+
+(* for every variant: outside the known classes (NT_wrapper, NT_payload) a nominal value never
+   reaches a different nominal type, nor its own underlying type *)
+Theorem C13_except_known : forall fx e a,
+  is_nominal a = true -> fit fx a e = true -> ntarget fx a e <> NT_cross.
 Proof. exact nominal_never_crosses_lem. Qed.
 Print Assumptions C13_except_known.
 
-Theorem C13_distinct_not_into_underlying : forall u t,
+Theorem C13_distinct_not_into_underlying : forall fx u t,
   is_nominal t = false ->
   (match t with TAny | Unknown | Optional _ | ErrorUnion _ _ => false | _ => true end) = true ->
-  fit (Distinct u t) t = false.
+  fit fx (Distinct u t) t = false.
 Proof. exact distinct_not_into_underlying. Qed.
 Print Assumptions C13_distinct_not_into_underlying.
 
-Theorem C13_variant_not_into_payload : forall eu nm u t d,
+Theorem C13_variant_not_into_payload : forall fx eu nm u t d,
   is_nominal t = false ->
   (match t with TAny | Unknown | Optional _ | ErrorUnion _ _ | Enum _ _ => false | _ => true end) = true ->
-  fit (Variant eu nm u t d) t = false.
+  fit fx (Variant eu nm u t d) t = false.
 Proof. exact variant_not_into_payload. Qed.
 Print Assumptions C13_variant_not_into_payload.
 
 (* explicit casts between a distinct type and its underlying type are accepted, both ways *)
-Theorem C13_cast_from_distinct : forall t u, cast (Distinct u t) t = true.
+Theorem C13_cast_from_distinct : forall fx t u, cast fx (Distinct u t) t = true.
 Proof. exact cast_from_distinct. Qed.
 Print Assumptions C13_cast_from_distinct.
 
-Theorem C13_cast_to_distinct : forall t u, cast t (Distinct u t) = true.
+Theorem C13_cast_to_distinct : forall fx t u, cast fx t (Distinct u t) = true.
 Proof. exact cast_to_distinct. Qed.
 Print Assumptions C13_cast_to_distinct.
 
 Example C13_ex_cross_rejected :
-  fit (Distinct 1 (IInt 32)) (Distinct 2 (IInt 32)) = false /\
-  fit (Distinct 1 (IInt 32)) (IInt 32) = false /\
-  fit (IInt 0) (Distinct 1 (IInt 32)) = true /\
-  fit (Variant 1 0 10 (IInt 32) 0) (Enum 1 [Variant 1 0 10 (IInt 32) 0]) = true.
+  fit no_fixes (Distinct 1 (IInt 32)) (Distinct 2 (IInt 32)) = false /\
+  fit no_fixes (Distinct 1 (IInt 32)) (IInt 32) = false /\
+  fit no_fixes (IInt 0) (Distinct 1 (IInt 32)) = true /\
+  fit no_fixes (Variant 1 0 10 (IInt 32) 0) (Enum 1 [Variant 1 0 10 (IInt 32) 0]) = true.
+Proof. vm_compute. auto. Qed.
+Example C13_ex_payload_fixed :
+  fit no_fixes (Struct 1 [(0%N, IInt 32)]) (Variant 7 0 8 (Struct 2 [(0%N, IInt 32)]) 0) = true /\
+  fit all_fixes (Struct 1 [(0%N, IInt 32)]) (Variant 7 0 8 (Struct 2 [(0%N, IInt 32)]) 0) = false.
 Proof. vm_compute. auto. Qed.
